@@ -153,7 +153,27 @@ def correspondence(ctx):
                           {'spec': sp, 'problems': problems, 'why': 'the same feedback class created several times: ' + '; '.join(problems[:3])})
     available = res['available']
     fspecs = list(available) + ['>10:' + a for a in available] + fmts_extra + [a + 's' for a in available]
-    res2 = vlib.run_impl('c20_impl.py', {'creation': [], 'formatting': fspecs, 'overrides': []})
+    res2 = vlib.run_impl('c20_impl.py', {'creation': [], 'formatting': fspecs, 'overrides': [], 'typed': True})
+    for r in res2.get('parents', []):
+        ctx.case(('parent', r['cond'], r['parent']), nontrivial=True)
+        truthy = r['cond'] in ('True', '1', 'str', 'list')
+        want = (1, 0) if truthy else (0, 1)
+        if r['cond'] == 'raises':
+            ok = r['raised'] is not None and r['raised'].startswith('RuntimeError') and (r['in_triggered'], r['in_untriggered']) == (0, 1)
+        else:
+            ok = r['raised'] is None and (r['in_triggered'], r['in_untriggered']) == want
+        if not ok:
+            ctx.violation('create-with-named-parent:%s' % ('triggered' if truthy else 'untriggered' if r['cond'] != 'raises' else 'error'),
+                          {'observed': r, 'why': 'a feedback whose condition is %s created with parent=%s: raised=%s, in triggered list %d time(s), '
+                                                 'in untriggered list %d time(s)' % (r['cond'], r['parent'], r['raised'], r['in_triggered'], r['in_untriggered'])})
+    for r in res2.get('formatting_typed', []):
+        ctx.case(('typed-format', r['template']), nontrivial=True)
+        if 'raise' in r:
+            ctx.violation('typed-format-raises', {'observed': r, 'why': '%s raised %s' % (r['template'], r['raise'])})
+        elif r['arg_type'] != r['want_type'] or r['arg_repr'] != r['want_repr']:
+            ctx.violation('formatter-gets-a-string-instead-of-the-field',
+                          {'observed': r, 'why': 'template %s: the formatter method received %s %s, the field is %s %s'
+                                                 % (r['template'], r['arg_type'], r['arg_repr'], r['want_type'], r['want_repr'])})
 
     # (a) creation: exhaustive over the spec space
     items = []
